@@ -28,6 +28,13 @@ CHECKS = {
             'empty buffer); checksum functions compared with a bitwise reference incl. all 65536/256 candidate check values.',
             'Trusts vlib/refframe.py (self-checked on CRC/LRC/MBAP vectors); PDU bytes are pymodbus\' own (C01 owns them).',
             'DESIGN.md 4 C03'),
+    'C18': ('hypothesis operation histories on blocks / slave contexts / server contexts vs a dict model; exhaustive small-block sweeps',
+            'Generated histories of validate/get/set/reset on sequential and sparse blocks with boundary-directed addresses, '
+            'of function-code-addressed operations on a slave context (zero-mode on/off), and of set/get/del/contains on '
+            'server contexts, each step compared with a dictionary model (full block dump after every step); plus exhaustive '
+            'sweeps of all (start,size,address,count) for small sequential blocks and all key subsets of a small sparse block.',
+            'Only ranges the model accepts are read/written (callers validate first); deletion of unregistered ids is not judged.',
+            'DESIGN.md 4 C18'),
     'C19': ('hypothesis generated typed-value sequences; oracle = round trip + independent layout function',
             'Generated-input search: thousands of typed value sequences x all four byte/word orders x both transports, '
             'each compared with an exact round trip and an independently written register-image function; plus a '
